@@ -104,6 +104,24 @@ def stageList (c : Config) (thr : Option (List Px)) : List (StageName × Stage) 
    else
     (c.model.toList.map fun s => (StageName.model, s)) ++ (c.restoration.toList.map fun s => (StageName.restoration, s)))
 
+/-- the stage object behind a stage name (if the analysis has one) -/
+def stageOf (c : Config) (thr : Option (List Px)) : StageName → Option Stage
+  | .reduction => c.reduction
+  | .cleaning => thr.map fun t => Stage.pure (clean t)
+  | .balancing => c.balancing
+  | .restoration => c.restoration
+  | .model => c.model
+
+/-- the stage objects that exist, for an ARBITRARY order of the private stage methods in `__call__` -/
+def stageListOf (order : List StageName) (c : Config) (thr : Option (List Px)) : List (StageName × Stage) :=
+  order.filterMap fun n => (stageOf c thr n).map fun s => (n, s)
+
+/-- the documented order: reduction → cleaning → balancing → restoration → model, the last two swapped when
+`"restoration -> model"` is false -/
+def docOrder (restorationFirst : Bool) : List StageName :=
+  if restorationFirst then [.reduction, .cleaning, .balancing, .restoration, .model]
+  else [.reduction, .cleaning, .balancing, .model, .restoration]
+
 /-- run stages left to right; the trace records each stage with the array it received -/
 def runStages : List (StageName × Stage) → Arr → Arr × List (StageName × Arr)
   | [], a => (a, [])
